@@ -309,6 +309,15 @@ namespace BitSerializer::Convert::Utf
 						}
 					}
 				}
+				// UTF-32 input may contain anything: surrogates and values above U+10FFFF cannot be encoded
+				else if (UnicodeTraits::IsInSurrogatesRange(sym) || sym > 0x10FFFF)
+				{
+					++invalidSequencesCount;
+					if (!Detail::HandleEncodingError(outStr, errorPolicy, errorMark)) {
+						return UtfEncodingResult(UtfEncodingErrorCode::InvalidSequence, startTailPos, invalidSequencesCount);
+					}
+					continue;
+				}
 
 				if (sym < 0x800)
 				{
@@ -453,10 +462,21 @@ namespace BitSerializer::Convert::Utf
 			}
 			else if constexpr (sizeof(TInCharType) == sizeof(char32_t))
 			{
+				size_t invalidSequencesCount = 0;
 				while (in != end)
 				{
+					TInIt startTailPos = in;
 					uint32_t sym = *in;
 					++in;
+					// Surrogates and values above U+10FFFF cannot be encoded
+					if (UnicodeTraits::IsInSurrogatesRange(sym) || sym > 0x10FFFF)
+					{
+						++invalidSequencesCount;
+						if (!Detail::HandleEncodingError(outStr, errorPolicy, errorMark)) {
+							return UtfEncodingResult(UtfEncodingErrorCode::InvalidSequence, startTailPos, invalidSequencesCount);
+						}
+						continue;
+					}
 					if (sym < 0x10000)
 					{
 						outStr.push_back(static_cast<TOutChar>(sym));
@@ -469,6 +489,7 @@ namespace BitSerializer::Convert::Utf
 						outStr.push_back(static_cast<TOutChar>(UnicodeTraits::LowSurrogatesStart | (sym & 0x3FF)));
 					}
 				}
+				return UtfEncodingResult(UtfEncodingErrorCode::Success, in, invalidSequencesCount);
 			}
 			return UtfEncodingResult(UtfEncodingErrorCode::Success, in, 0);
 		}
